@@ -339,7 +339,7 @@ func pricingMatches(p types.Pricing, rp RefPricing) string {
 		return "promotion counts differ"
 	}
 	for i, t := range p.PromotionsByTime {
-		if t.StartTime.UnixNano() != rp.ByTime[i].StartNs || t.EndTime.UnixNano() != rp.ByTime[i].EndNs || ratOfDec(t.Discount).Cmp(rp.ByTime[i].Discount) != 0 {
+		if satNs(t.StartTime) != rp.ByTime[i].StartNs || satNs(t.EndTime) != rp.ByTime[i].EndNs || ratOfDec(t.Discount).Cmp(rp.ByTime[i].Discount) != 0 {
 			return fmt.Sprintf("time promotion %d differs", i)
 		}
 	}
